@@ -793,6 +793,12 @@ def _execute(trace, res, prop, program, meta, ops, solver, fs):
                         res.violate("C12", "C12/history-dependent:%s@%s" % (_strip(x), where), x, oi)
                         if live.prev_failed:
                             res.violate("C05", "C05/no-recovery-after-failure:%s" % _strip(x), x, oi)
+                elif outcome == "nc":
+                    # a failing calculation on a net with a past must leave the same (empty) result tables
+                    # as the same failing calculation on a fresh net
+                    for x in netmodel.results_equal_bitwise(live.net, twin):
+                        res.violate("C12", "C12/history-dependent:%s@failed-run" % _strip(x), x, oi)
+                    res.count("probe:failed-run-results-compared")
             res.oracle_checks += 1
 
         # ---- C15: never-restarted shadow -----------------------------------------------------
